@@ -12,15 +12,16 @@ Definition g_kwonly : list (list (name * option val)) := [ []; [(4, None)]; [(4,
 Definition g_sigs : list sig :=
   flat_map (fun p => flat_map (fun va => flat_map (fun ko => map (fun kw =>
     {| pos := p; posonly := 0; varargs := va; kwonly := ko; varkw := kw |}) [None; Some 11]) g_kwonly) [None; Some 10]) g_pos.
-Definition g_positional : list (list val) := [ []; [VInt 1]; [VInt 1; VInt 2; VInt 3] ].
-Definition g_keywords : list (list (name * val)) :=
-  [ []; [(1, VInt 31)]; [(2, VInt 11)]; [(4, VInt 34)]; [(20, VInt 50)] ].
-Definition g_supplies : list call :=
-  flat_map (fun p => map (fun k => {| cpos := p; ckw := k |}) g_keywords) g_positional.
 Definition g_ctor_supplies : list call :=
-  g_supplies ++ [ {| cpos := []; ckw := [(10, VList [5%Z])] |}; {| cpos := [VInt 1]; ckw := [(4, VInt 20); (10, VList [])] |} ].
+  [ {| cpos := []; ckw := [] |}; {| cpos := [VInt 1]; ckw := [] |}; {| cpos := [VInt 1; VInt 2; VInt 3]; ckw := [] |};
+    {| cpos := []; ckw := [(2, VInt 11)] |}; {| cpos := [VInt 1]; ckw := [(20, VInt 50)] |}; {| cpos := []; ckw := [(10, VList [5%Z])] |};
+    {| cpos := [VInt 1]; ckw := [(4, VInt 20); (10, VList [])] |}; {| cpos := [VInt 1; VInt 2]; ckw := [(4, VInt 7)] |} ].
+Definition g_supplies : list call :=
+  [ {| cpos := []; ckw := [] |}; {| cpos := [VInt 1]; ckw := [] |}; {| cpos := [VInt 1; VInt 2; VInt 3]; ckw := [] |};
+    {| cpos := []; ckw := [(1, VInt 31)] |}; {| cpos := [VInt 1]; ckw := [(1, VInt 31)] |}; {| cpos := []; ckw := [(4, VInt 34)] |};
+    {| cpos := []; ckw := [(20, VInt 50)] |}; {| cpos := [VInt 1; VInt 2]; ckw := [(2, VInt 32)] |} ].
 Definition g_flags : list (bool * bool) := [ (false, false); (true, true) ].
-Definition g_lates : list (list (name * val)) := [ []; [(2, VInt 11)]; [(10, VList [7%Z])] ].
+Definition g_lates : list (list (name * val)) := [ []; [(2, VInt 11)] ].
 Definition g_call_flags : list (option bool * option bool) := [ (None, None); (Some true, Some true) ].
 
 Definition agrees_on (s : sig) (ctor : call) (fl : bool * bool) (lates : list (name * val)) : bool :=
